@@ -76,6 +76,8 @@ func tokenize(sourceCode string, cursor *Position) ([]Token, error) {
 	return result, nil
 }
 
+var stringUnescaper = strings.NewReplacer(`\\`, `\`, `\"`, `"`, `\n`, "\n")
+
 func read_atom(rdr *tokenReader) (MalType, error) {
 	tokenStruct := rdr.next()
 	if tokenStruct == nil {
@@ -91,13 +93,9 @@ func read_atom(rdr *tokenReader) (MalType, error) {
 		return int(i), nil
 	case scanner.String:
 		str := (*token)[1 : len(*token)-1]
-		return strings.Replace(
-			strings.Replace(
-				strings.Replace(
-					strings.Replace(str, `\\`, "\u029e", -1),
-					`\"`, `"`, -1),
-				`\n`, "\n", -1),
-			"\u029e", "\\", -1), nil
+		// un-escape in a single left-to-right pass (no stand-in character, so that a
+		// U+029E inside the string is left alone)
+		return stringUnescaper.Replace(str), nil
 	case scanner.RawString:
 		if *token == "¬" {
 			return nil, lisperror.NewLispError(errors.New("expected '¬', got EOF"), tokenStruct.GetPosition())
